@@ -1,0 +1,60 @@
+//! Verification hooks (feature `verif`): plain-data dump of a constraint automaton.
+
+use petgraph::{visit::EdgeRef, Direction};
+
+use crate::{
+    indexing::IndexKey,
+    verif::{AutomatonDump, StateDump},
+    Constraint,
+};
+
+use super::ConstraintAutomaton;
+
+impl<K: IndexKey, P, I> ConstraintAutomaton<K, P, I> {
+    /// Dump the automaton as plain data (ids, flags, orders, adjacency).
+    pub fn verif_dump(
+        &self,
+        render_constraint: impl Fn(&Constraint<K, P>) -> String,
+        render_key: impl Fn(&K) -> String,
+    ) -> AutomatonDump {
+        let states = self
+            .graph
+            .node_indices()
+            .map(|n| {
+                let w = &self.graph[n];
+                StateDump {
+                    id: n.index(),
+                    deterministic: w.deterministic,
+                    matches: w
+                        .matches
+                        .iter()
+                        .map(|(p, ks)| (p.0, ks.iter().map(&render_key).collect()))
+                        .collect(),
+                    scope: w.required_bindings.iter().map(&render_key).collect(),
+                    constraint_order: w.constraint_order.iter().map(|t| t.0.index()).collect(),
+                    epsilon_order: w.epsilon_order.iter().map(|t| t.0.index()).collect(),
+                    out_edges: self
+                        .graph
+                        .edges_directed(n, Direction::Outgoing)
+                        .map(|e| {
+                            (
+                                e.id().index(),
+                                e.target().index(),
+                                e.weight().constraint.as_ref().map(&render_constraint),
+                            )
+                        })
+                        .collect(),
+                    in_edges: self
+                        .graph
+                        .edges_directed(n, Direction::Incoming)
+                        .map(|e| (e.id().index(), e.source().index()))
+                        .collect(),
+                }
+            })
+            .collect();
+        AutomatonDump {
+            root: self.root.0.index(),
+            states,
+        }
+    }
+}
